@@ -95,13 +95,21 @@ impl ContinuityStreamCache {
 
     /// Start-up reconciliation with the truth log: drop the (rebuildable) caches of a continuity
     /// whose last cache update was interrupted, or whose sidecar does not end with the last
-    /// continuity frame of the log (`last_truth_frame` = its stream id and seq).
-    pub(crate) fn reconcile_after_restart(&self, last_truth_frame: Option<(String, u64)>) {
+    /// continuity frame of the log (`last_truth_frame` = its stream id and seq). Returns the
+    /// continuities whose caches were dropped, so the caller can rebuild them from the log
+    /// (a cache that is merely missing would otherwise be re-created by the next append with
+    /// only the new frames in it).
+    pub(crate) fn reconcile_after_restart(
+        &self,
+        last_truth_frame: Option<(String, u64)>,
+    ) -> Vec<String> {
+        let mut dropped: Vec<String> = Vec::new();
         if let Ok(entries) = fs::read_dir(&self.dir) {
             for entry in entries.flatten() {
                 let name = entry.file_name();
                 if let Some(continuity_id) = name.to_string_lossy().strip_suffix(".dirty") {
                     self.remove_all_for(continuity_id);
+                    dropped.push(continuity_id.to_string());
                 }
             }
         }
@@ -111,8 +119,10 @@ impl ContinuityStreamCache {
                 && !matches!(self.try_read_last_seq(&continuity_id), Ok(Some(last)) if last == seq)
             {
                 self.remove_all_for(&continuity_id);
+                dropped.push(continuity_id);
             }
         }
+        dropped
     }
 
     // Sidecar containing only continuity_message_appended + continuity_run_ended (cache-only).
